@@ -340,7 +340,16 @@ func faults(dir string, seed int64, runs int, table *enc.Table, trace *util.NDJS
 						case x < 50:
 							// session transaction: commit, abort, end without either, or a panicking callback
 							client.UseSession(context.Background(), func(sc lungo.ISessionContext) error {
-								how := rr.N(5)
+								how := rr.N(6)
+								if how == 5 {
+									// the UseSession callback itself panics with a transaction it started by hand: the session
+									// is ended on the way out and the writer slot comes back
+									if err := sc.StartTransaction(); err != nil {
+										return err
+									}
+									coll.UpdateOne(sc, d("_id", int32(0)), d("$inc", d("n", int32(1))))
+									panic("session callback panics with an open transaction")
+								}
 								if how == 4 {
 									sc.WithTransaction(sc, func(sc2 lungo.ISessionContext) (interface{}, error) {
 										coll.InsertOne(sc2, d("_id", int32(a*100+50+i)))
